@@ -11,7 +11,7 @@ import vlib
 PROP = 'C03'
 HEADER = ('From Coq Require Import ZArith List.\nImport ListNotations.\n'
           'From VIsa Require Import IsaState ExecImpl ExecSpec IsaCheck.\nOpen Scope Z_scope.\n')
-COQ_TARGETS = ['isa/IsaCheck.vo', 'isa/ExecFThm.vo', 'props/C03.vo']
+COQ_TARGETS = ['isa/IsaCheck.vo', 'isa/ExecFThm.vo', 'isa/ExecMThm.vo', 'props/C03.vo']
 
 # ---- known findings (proposed entries of known_findings.json), keyed by (alu, format, opcode)
 KNOWN_OPS = {
@@ -21,6 +21,8 @@ KNOWN_OPS = {
     ('cdna3', 'VOP2', 59): 'v_fmac_f32 is computed as float32(src0*src1) + dst with two roundings; the CDNA3 manual prescribes a fused multiply-add',
     ('cdna3', 'VOP3A', 459): 'v_fma_f32 is computed as float32(src0*src1) + src2 with two roundings; the manual prescribes a fused multiply-add',
 }
+HI64_TEXT = ('vcc_hi as the 32-bit shift amount of v_lshlrev_b64 / v_lshrrev_b64 / v_ashrrev_i64 is read as the whole 64-bit VCC '
+             '(the decode table marks SRC0 of these opcodes 64 bits wide; the manual: S0.u[5:0])')
 UNSUP_TEXT = 'vccz/execz as source operand panic ("Register type not supported")'
 
 SOP2_64 = {11, 13, 15, 17, 19, 21, 23, 25, 27, 29, 31, 33}
@@ -41,6 +43,8 @@ def classify(c):
         return None
     if key in KNOWN_OPS:
         return key, KNOWN_OPS[key]
+    if c['fmt'] == 'VOP3A' and c['op'] in (655, 656, 657) and c['src0'] == 107:
+        return ('operand', 'hi-half-wide-slot'), HI64_TEXT
     return None
 
 
@@ -68,9 +72,9 @@ def proved_rows():
     """The (alu, format, opcode) rows covered by impl_eq_spec theorems, read from Coq."""
     src = os.path.join(vlib.COQ, 'cases', 'C03_rows.v')
     os.makedirs(os.path.dirname(src), exist_ok=True)
-    open(src, 'w').write('From Coq Require Import ZArith List.\nImport ListNotations.\nFrom VIsa Require Import IsaState ExecVThm ExecFThm.\nOpen Scope Z_scope.\nSet Printing Depth 100000.\nSet Printing Width 200.\n'
-                         'Definition G := Eval vm_compute in (proved_rows GCN3 ++ frows GCN3).\nPrint G.\n'
-                         'Definition C := Eval vm_compute in (proved_rows CDNA3 ++ frows CDNA3).\nPrint C.\n')
+    open(src, 'w').write('From Coq Require Import ZArith List.\nImport ListNotations.\nFrom VIsa Require Import IsaState ExecVThm ExecFThm ExecMThm.\nOpen Scope Z_scope.\nSet Printing Depth 100000.\nSet Printing Width 200.\n'
+                         'Definition G := Eval vm_compute in (proved_rows GCN3 ++ frows GCN3 ++ mrows GCN3).\nPrint G.\n'
+                         'Definition C := Eval vm_compute in (proved_rows CDNA3 ++ frows CDNA3 ++ mrows CDNA3).\nPrint C.\n')
     rc, log = vlib.run(['coqc'] + vlib.coq_q_args() + [os.path.relpath(src, vlib.COQ)], cwd=vlib.COQ, timeout=300)
     for ext in ('.v', '.vo', '.vok', '.vos', '.glob'):
         try:
@@ -240,7 +244,7 @@ def main(argv):
     rep.coverage.update({
         'evaluations': len(cases),
         'distinct_nontrivial': len({vlib.case_hash(strip(c)) for c in cases if nontrivial(c)}),
-        'rule': 'one instruction per case, all implemented SOP2/SOP1/SOPC/SOPK/SOPP opcodes of both ALUs. (a) deterministic corner grid, always run: each source in {0, 1, 0x7fffffff, 0x80000000, 0xfffffffe, 0xffffffff, random} x each other source likewise x SCC-in {0,1} (64-bit analogues for B64 rows; EXEC x source for saveexec); shift amounts {0,1,31,32,33,63,64,0xffffffff}; bit-field offset {0,1,4,16,31} x width {0,1,4,16,28,31,32,33,64,127}; SOPK immediates x register values equal/near the sign-extended immediate; SOPP immediates x SCC x VCC zero/non-zero x EXEC zero/non-zero. (c) vector integer opcodes of VOP2/VOP1/VOPC/VOP3a/VOP3b: two 64-lane grid cases per opcode (per-lane cross product of eight operand corners, shift-amount / 64-bit corners, carry-in pattern and complement, EXEC full and with holes) plus random cases with all operand kinds; corpus of repaired-defect witnesses. (b) %d random cases per scalar opcode: operand kinds SGPR / literal / '
+        'rule': 'one instruction per case, all implemented SOP2/SOP1/SOPC/SOPK/SOPP opcodes of both ALUs. (a) deterministic corner grid, always run: each source in {0, 1, 0x7fffffff, 0x80000000, 0xfffffffe, 0xffffffff, random} x each other source likewise x SCC-in {0,1} (64-bit analogues for B64 rows; EXEC x source for saveexec); shift amounts {0,1,31,32,33,63,64,0xffffffff}; bit-field offset {0,1,4,16,31} x width {0,1,4,16,28,31,32,33,64,127}; SOPK immediates x register values equal/near the sign-extended immediate; SOPP immediates x SCC x VCC zero/non-zero x EXEC zero/non-zero. (c) vector integer opcodes of VOP2/VOP1/VOPC/VOP3a/VOP3b: two 64-lane grid cases per opcode (per-lane cross product of eight operand corners, shift-amount / 64-bit corners, carry-in pattern and complement, EXEC full and with holes) plus random cases with all operand kinds; corpus of repaired-defect witnesses. (d) binary32 opcodes (add/sub/mul/mac/mad/fma, min/max, compares, conversions): grid lanes over {+-0, +-1, +-inf, NaN, denormals, largest finite, 2^31, 2^32, halfway cases} plus random; NaN results compared as a class. (e) memory opcodes (SMEM s_load_dword..x16, FLAT/GLOBAL loads and stores, DS reads/writes incl. read2/write2/b128) against a flat byte memory standing in for the storage accessor and a 256-byte LDS: per opcode 6 deterministic cases (address bases incl. wrap at 2^64 and 2^32, lane strides 0/1/3/4/8/16 = overlapping and unaligned stores, SADDR off / s[0:1] / other pair, offsets 0, 4, -4, 4095, -4096, unaligned SMEM offsets, EXEC full / holes / two lanes / empty, LDS accesses leaving the allocation) plus random cases; every byte read or written and the whole LDS are compared. (b) %d random cases per scalar opcode: operand kinds SGPR / literal / '
                 'inline +- / float constants / vcc_lo / vcc_hi / m0 / exec_lo / scc / exec_hi / vccz / execz, destinations SGPR / vcc / m0 / exec; '
                 'values from corner sets (0, 1, -1, 0x7fffffff, 0x80000000, shift amounts 31/32/33/63/64, bit-field descriptors, carry pairs a+b=2^32-1) and random; '
                 'random SCC/VCC/EXEC/M0/PC and register-file fill; non-trivial = executed without panic and changed state or is a compare/branch' % per,
